@@ -5,6 +5,8 @@ import json, os, shutil, subprocess, sys, time
 V = os.path.dirname(os.path.dirname(os.path.abspath(__file__)))
 sid, props = sys.argv[1], sys.argv[2:]
 src = "/tmp/seed/%s/out" % sid
+if not os.path.isdir(src):
+    src = "/tmp/seed_%s/seed_out" % sid
 dst = os.path.join(V, "seeded", sid)
 os.makedirs(dst, exist_ok=True)
 for f in ("patch.diff", "demo.rs", "notes.md"):
